@@ -107,6 +107,10 @@ class Unit:
                 return '__virt_' + self.resolve_virt(key[5:]) + '__ext'
             if key in getattr(self, 'std', {}):
                 n = self.std[key]
+                if key in getattr(self, 'optional', ()) and isinstance(n, tuple):
+                    # a model for a library function the lowered code MAY call (e.g. after a change): absent -> the model is dead code
+                    hits = sorted(set(x['name'] for x in self.json['std_stubs'] if x['qualified'] == n[0] and all(t in x['name'] + ' ' + x.get('type', '') + ' ' + x.get('params', '') for t in n[1:])))
+                    return hits[0] if len(hits) == 1 else '__unused_model_' + key
                 if isinstance(n, tuple):   # (qualified name, substring of the stub's mangled name or type): robust against lambda renumbering
                     hits = sorted(set(x['name'] for x in self.json['std_stubs'] if x['qualified'] == n[0] and all(t in x['name'] + ' ' + x.get('type', '') + ' ' + x.get('params', '') for t in n[1:])))
                     if len(hits) != 1:
@@ -115,6 +119,11 @@ class Unit:
                 if n not in [x['name'] for x in self.json['std_stubs']]:
                     raise Undecided('MUST-FIRE: std stub %s (%s) is not called by the lowered code of unit %s' % (key, n, self.name))
                 return n
+            if key in getattr(self, 'optional', ()) and key in self.names:
+                try:
+                    return self.resolve_name(key)
+                except Undecided:
+                    return '__unused_model_' + key
             return self.resolve_name(key)
         return re.sub(r'@\{([A-Za-z0-9_:.<>+ ]+)\}', sub, text)
 
@@ -223,7 +232,8 @@ def run_ob(ob, workdir, keep=False):
         open(cpath, 'w').write(src)
         entry = u.resolve_text(ob.entry)
         gb = os.path.join(d, 'ob.gb')
-        gcc_cmd = ['goto-cc', '--function', entry, '-DIPR_CANARY', '-I' + os.path.join(VERIF, 'harness')] + ['-D' + x for x in ob.defines] + ['-DIPR_SKIP_' + u.resolve_text(x) for x in ob.skip] + [cpath, '-o', gb]
+        have = ['-DIPR_HAVE_' + k for k in sorted(getattr(u, 'optional', ())) if not u.resolve_text('@{%s}' % k).startswith('__unused_model_')]
+        gcc_cmd = ['goto-cc', '--function', entry, '-DIPR_CANARY', '-I' + os.path.join(VERIF, 'harness')] + have + ['-D' + x for x in ob.defines] + ['-DIPR_SKIP_' + u.resolve_text(x) for x in ob.skip] + [cpath, '-o', gb]
         open(os.path.join(d, 'cmds.sh'), 'w').write(' '.join(gcc_cmd) + '\n')
         rc, out, err, dt = sh(gcc_cmd, timeout=300)
         if rc != 0:
